@@ -713,12 +713,19 @@ func monitorGradient(line string, rect image.Rectangle, smp []image.Point, cs []
 					}
 					o = t
 				}
+				atStop := false
 				for _, s := range stops {
-					if math.Abs(o-s.off) < 1e-6 {
+					if o == s.off && !transparent {
+						// exactly at a stop's offset the colour is that stop's colour, however close its neighbours are
+						e.want, atStop = s.rgba, true
+					} else if math.Abs(o-s.off) < 1e-6 {
 						e.skip = true
 					}
 				}
-				if !transparent && !e.skip {
+				if atStop {
+					e.skip = false
+				}
+				if !transparent && !e.skip && !atStop {
 					switch {
 					case o < stops[0].off:
 						e.want = stops[0].rgba
